@@ -256,6 +256,9 @@ func (p *parser) processCtl(dst []node, root, r *node, ctl []byte, offset int) (
 		return dst, offset, false, err
 	}
 	if reCondElse.Match(ctl) {
+		if root == nil {
+			return dst, offset, false, ErrUnexpectedClose
+		}
 		root.typ = typeDiv
 		dst = append(dst, *root)
 		offset += len(ctl)
@@ -305,6 +308,9 @@ func (p *parser) processCtl(dst []node, root, r *node, ctl []byte, offset int) (
 
 	if ctl[0] == '}' {
 		offset++
+		if root == nil {
+			return dst, offset, true, ErrUnexpectedClose
+		}
 		switch root.typ {
 		case typeLoopCount, typeLoopRange:
 			p.cl--
